@@ -62,9 +62,6 @@ mut("C11-disable-invalidate-only-when-changed", R,
 mut("C11-compile-unknown-chain-serves-main", R,
     '        return self.__cache__.get(chainName, []) or []\n',
     '        return self.__cache__.get(chainName) or self.__cache__[""]\n')
-mut("C11-compile-alt-first-only", R,
-    '                if chain and (chain not in rule.alt):\n',
-    '                if chain and (chain not in rule.alt[:2]):\n')
 mut("C11-after-inserts-before-when-last", R,
     '''            index + 1, Rule[RuleFuncTv](ruleName, True, fn, options.get("alt", []))''',
     '''            min(index + 1, len(self.__rules__) - 1),
@@ -117,13 +114,6 @@ mut("C11-enable-dedup-cache-keep", R,
 mut("C12-configure-merges-into-preset", MAIN,
     '            options = {**options, **options_update}  # type: ignore\n',
     '            options.update(options_update)  # type: ignore\n')
-mut("C12-optionsdict-keeps-caller-dict", "markdown_it/utils.py",
-    '        self._options = cast(OptionsType, dict(options))\n',
-    '        self._options = cast(OptionsType, options if isinstance(options, dict) else dict(options))\n')
-mut2("C12-mutable-default-env", [
-    (MAIN, '    def render(self, src: str, env: EnvType | None = None) -> Any:',
-     '    def render(self, src: str, env: EnvType | None = {}) -> Any:  # noqa: B006', 1),
-])
 mut2("C12-renderer-rules-on-class", [
     ("markdown_it/renderer.py", '''    def __init__(self, parser: Any = None):
         self.rules = {
@@ -158,35 +148,6 @@ mut2("C12-backticks-class-attr", [
     ("markdown_it/rules_inline/state_inline.py", '''        # backticklength => last seen position
         self.backticks: dict[int, int] = {}
         self.backticksScanned = False''', '''        self.backticksScanned = False''', 1)])
-mut2("C12-gfm-mutates-commonmark", [
-    ("markdown_it/presets/commonmark.py", '''def make() -> PresetType:
-    return {''', '''def make() -> PresetType:
-    return _CONFIG
-
-
-_CONFIG: PresetType = {''', 1),
-    ("markdown_it/presets/commonmark.py", '''                "rules2": ["balance_pairs", "emphasis", "fragments_join"],
-            },
-        },
-    }
-''', '''                "rules2": ["balance_pairs", "emphasis", "fragments_join"],
-            },
-        },
-}
-''', 1)])
-mut("C12-text-memo-by-pos", "markdown_it/rules_inline/text.py",
-    '''    terminator_char = _terminator_char_regex().search(state.src, pos)
-    pos = terminator_char.start() if terminator_char else posMax
-''', '''    key = (len(state.src), pos)
-    hit = _NEXT_TERMINATOR.get(key)
-    if hit is None or hit > posMax:
-        terminator_char = _terminator_char_regex().search(state.src, pos)
-        hit = terminator_char.start() if terminator_char else posMax
-        if len(state.src) > 200:
-            _NEXT_TERMINATOR[key] = hit
-    pos = hit
-''')
-
 # ---------------------------------------------------------------- C13
 mut2("C13-block-state-on-parser", [
     ("markdown_it/parser_block.py", '''        state = StateBlock(src, md, env, outTokens)
@@ -219,28 +180,6 @@ mut2("C13-renderer-result-on-self", [
                 self._out += self.renderToken(tokens, i, options, env)
 
         return self._out
-''', 1)])
-mut2("C13-inline-env-on-parser", [
-    ("markdown_it/parser_inline.py", '''        state = StateInline(src, md, env, tokens)
-        self.tokenize(state)
-        rules2 = self.ruler2.getRules("")
-        for rule in rules2:
-            rule(state)
-        return state.tokens''', '''        self._current = StateInline(src, md, env, tokens)
-        self.tokenize(self._current)
-        rules2 = self.ruler2.getRules("")
-        for rule in rules2:
-            rule(self._current)
-        return self._current.tokens''', 1)])
-mut2("C13-image-toggles-option", [
-    ("markdown_it/rules_inline/image.py", '''        tokens: list[Token] = []
-        state.md.inline.parse(content, state.md, state.env, tokens)
-''', '''        tokens: list[Token] = []
-        # nested descriptions only need a shallow parse
-        saved = state.md.options["maxNesting"]
-        state.md.options["maxNesting"] = max(1, saved - state.level)
-        state.md.inline.parse(content, state.md, state.env, tokens)
-        state.md.options["maxNesting"] = saved
 ''', 1)])
 mut2("C13-balance-pairs-module-scratch", [
     ("markdown_it/rules_inline/balance_pairs.py", '''def processDelimiters(state: StateInline, delimiters: list[Delimiter]) -> None:
@@ -359,50 +298,43 @@ mut2("C14-skiptoken-level-on-parser", [
 
 # ---------------------------------------------------------------- C16
 REF = "markdown_it/rules_block/reference.py"
-mut("C16-last-wins", REF,
-    '    if label not in state.env["references"]:\n',
-    '    if True:\n        if label in state.env["references"]:\n            state.env.setdefault("duplicate_refs", []).append(\n                {**state.env["references"][label], "label": label}\n            )\n')
 mut("C16-duplicates-not-recorded-when-same", REF,
     '''    else:
         state.env.setdefault("duplicate_refs", []).append(''',
     '''    elif state.env["references"][label]["href"] != href:
         state.env.setdefault("duplicate_refs", []).append(''')
-mut("C16-references-recreated-when-empty-doc-start", REF,
-    '''    if "references" not in state.env:
-        state.env["references"] = {}
-''', '''    if "references" not in state.env or startLine == 0 and not state.tokens and not state.env.get("duplicate_refs"):
-        state.env.setdefault("references", {})
-        if len(state.env["references"]) > 64:
-            state.env["references"] = {}
-''')
-mut("C16-normalize-no-ws-collapse-tabs", "markdown_it/common/utils.py",
-    '    string = re.sub(r"\\s+", " ", string.strip())\n',
-    '    string = re.sub(r" +", " ", string.strip())\n')
-mut("C16-normalize-upper-only", "markdown_it/common/utils.py",
-    '    return string.lower().upper()\n',
-    '    return string.upper()\n')
 mut("C16-link-lookup-strips-differently", "markdown_it/rules_inline/link.py",
     '        label = normalizeReference(label)\n',
     '        label = normalizeReference(label.replace("\\n", ""))\n')
-mut("C16-image-lookup-casefold", "markdown_it/rules_inline/image.py",
-    '        label = normalizeReference(label)\n',
-    '        label = normalizeReference(label.casefold())\n')
 mut("C16-map-off-by-one-multiline", REF,
     '''            "map": [startLine, state.line],
         }
     else:''', '''            "map": [startLine, nextLine],
         }
     else:''')
-mut("C16-dup-map-from-first", REF,
-    '''                "label": label,
-                "map": [startLine, state.line],''', '''                "label": label,
-                "map": state.env["references"][label]["map"],''')
-mut("C16-title-not-unescaped-in-reference", "markdown_it/helpers/parse_link_title.py",
-    None, None)  # placeholder, specified below
+
+mut("C16-image-lookup-own-normalisation", "markdown_it/rules_inline/image.py",
+    '        label = normalizeReference(label)\n',
+    '        label = " ".join(label.split()).upper()\n')
+mut("C16-later-parse-lower-line-overrides", REF,
+    '    if label not in state.env["references"]:\n',
+    '    if label not in state.env["references"] or state.env["references"][label]["map"][0] > startLine:\n')
+mut2("C16-env-falsy-treated-as-omitted", [
+    (MAIN, "        env = {} if env is None else env\n        if not isinstance(env, MutableMapping):\n            raise TypeError(f\"Input data should be a MutableMapping, not {type(env)}\")",
+     "        env = env or {}\n        if not isinstance(env, MutableMapping):\n            raise TypeError(f\"Input data should be a MutableMapping, not {type(env)}\")", 1)])
+mut("C16-dup-recorded-only-first-time", REF,
+    """    else:
+        state.env.setdefault("duplicate_refs", []).append(""",
+    """    elif not any(d["label"] == label for d in state.env.get("duplicate_refs", [])):
+        state.env.setdefault("duplicate_refs", []).append(""")
+mut2("C12-statecore-tokens-default-shared", [
+    ("markdown_it/rules_core/state_core.py", "class StateCore(StateBase):\n",
+     "_NO_TOKENS: list[Token] = []\n\n\nclass StateCore(StateBase):\n", 1),
+    ("markdown_it/rules_core/state_core.py", "        self.tokens: list[Token] = tokens or []\n",
+     "        self.tokens: list[Token] = tokens or _NO_TOKENS\n", 1)])
 
 
 def main():
-    M.pop()  # drop placeholder
     outdir = os.path.join(VERIF, "mutants")
     os.makedirs(outdir, exist_ok=True)
     ok = 0
